@@ -10,6 +10,41 @@ canonical tuples are equal.  `check(state, hist)` returns a list of violations
 import collections
 
 
+_SIMPLE = (int, float, bool, str, bytes, type(None))
+
+
+def _simple(v, depth=0):
+    if isinstance(v, _SIMPLE):
+        return (type(v).__name__, v)
+    if isinstance(v, bytearray):
+        return ("bytearray", bytes(v))
+    if depth < 3 and isinstance(v, (list, tuple)):
+        return (type(v).__name__, tuple(_simple(x, depth + 1) for x in v))
+    if depth < 3 and isinstance(v, dict):
+        try:
+            return ("dict", tuple(sorted((repr(k), _simple(x, depth + 1)) for k, x in v.items())))
+        except Exception:
+            return ("dict", len(v))
+    if depth < 3 and isinstance(v, (set, frozenset)):
+        return ("set", tuple(sorted(repr(x) for x in v)))
+    return None
+
+
+def simple_state(obj, skip=()):
+    """Every instance attribute of a real object whose value is plain data (numbers, strings, bytes, and shallow
+    containers of them), whatever its name.  Part of a canonical state so that merging two histories stays sound
+    when the implementation keeps more state than the fields the harness knows about (a cached length, a flag):
+    states that differ in any such attribute are never merged."""
+    out = []
+    for k, v in sorted(vars(obj).items()):
+        if k in skip:
+            continue
+        sv = _simple(v)
+        if sv is not None:
+            out.append((k, sv))
+    return tuple(out)
+
+
 class Result(object):
     def __init__(self):
         self.states = 0
